@@ -72,7 +72,7 @@ Part == IF NParts = 1 THEN 0 ELSE atoi(IOEnv.OPCASES_PART)
 
 (* the second program of C_PROGS has unsigned plain char: only cases mentioning char differ *)
 OInit == /\ cpid \in 1..Len(CProgs)
-         /\ cas \in {c \in Cases : Slice(c) = Part}
+         /\ cas \in {c \in Cases : c.kind \in {"cast", "un"} \/ Slice(c) = Part}     \* conversions and unary ops are always enumerated completely
          /\ (cpid > 1 => "char" \in {cas.lt, cas.rt})
          /\ ck = <<>> /\ env = <<>> /\ genv = <<>> /\ mem = <<>> /\ cout = <<>> /\ cstatus = "gen" /\ cret = Zero /\ cfuel = 0 /\ depth = 0
 ONext == UNCHANGED ovars
